@@ -396,6 +396,23 @@ Rotate(s) == [i \in 1..Len(s) |-> Rot(s[i])]
 Derived(s) == <<s, Reverse(s), Rotate(s)>>            \* an alignment built from its first row
 Ragged(s) == <<s, SubSeq(s, 2, Len(s)), SubSeq(s, 1, Len(s) - 2)>>   \* lengths L, L-1, L-2
 
+(* WRITER ROUTES.  The same text must come out of every public way of writing    *)
+(* a collection, in the collection's own order (not the sorted order of names):   *)
+(*   write      coll.write(path)                     (passes order = names)       *)
+(*   app        write_seqs(data_store, format) app   (formatter on to_dict())     *)
+(*   to_string  coll.to_fasta() / to_phylip() / to_json() written to a file       *)
+(*   formatter  FORMATTERS[fmt](dict) called on a plain dict, no order given      *)
+(* The oracle does not depend on the route: WriteVia(r, c) = the writer model.    *)
+Routes(f) == {"write"} \cup (IF f # "json" THEN {"app", "formatter"} ELSE {})
+             \cup (IF f \in {"fasta", "phylip", "json"} THEN {"to_string"} ELSE {})
+(* family O: three or four names whose given order is not the sorted one, incl.   *)
+(* names whose lexicographic and numeric orders differ (s10 sorts before s2)      *)
+OrderNames == { << <<"s", "2">>, <<"s", "1", "0">>, <<"s", "1">> >>,
+                << <<"s", "1", "0">>, <<"s", "2">>, <<"s", "1", "1">>, <<"s", "1">> >>,
+                << <<"z", "e", "b">>, <<"a", "n", "t">>, <<"m", "u", "s">> >> }
+CharOrder == <<"0", "1", "2", "a", "b", "e", "m", "n", "s", "t", "u", "z">>   \* code point order of the characters used
+FixedSeqs4 == FixedSeqs \o << <<"A", "A", "C", "-", "C">> >>
+
 (* ragged family Q: QSeqs sequences whose lengths are taken independently from   *)
 (* {0, 1, b, b+1, 2b+2} (b = the writer's block size): shorter than, exactly,   *)
 (* one more than, and more than twice the wrap width; every order, so the first *)
@@ -433,6 +450,8 @@ Selectors ==
     \cup UNION {{Sel("R", f, b, 3, 0) : b \in BlocksFor(f)} : f \in RaggedFmts}
     \* Q: ragged collections with lengths on both sides of the wrap width, in every order
     \cup UNION {{Sel("Q", f, b, QSeqs, 0) : b \in BlocksFor(f)} : f \in RaggedFmts}
+    \* O: names in non-alphabetical order, every writer route
+    \cup {Sel("O", f, NameBlock, n, 0) : f \in Fmts, n \in {3, 4}}
     \* P: two special names
     \cup (IF PairLen > 0 THEN {Sel("P", f, NameBlock, 2, 0) : f \in Fmts} ELSE {})
 
@@ -450,6 +469,9 @@ CasesOf(sl) ==
           [] sl.fam = "Q" ->
                {Case("Q", sl.fmt, sl.block, SubSeq(BaseNames, 1, QSeqs), [i \in 1..QSeqs |-> Pat(l[i], i)], TRUE)
                     : l \in {t \in [1..QSeqs -> QLensOf(sl.block)] : \E i \in 2..QSeqs : t[i] # t[1]}}
+          [] sl.fam = "O" ->
+               {Case("O", sl.fmt, sl.block, nm, SubSeq(FixedSeqs4, 1, sl.n), FALSE)
+                    : nm \in {t \in OrderNames : Len(t) = sl.n}}
           [] sl.fam = "P" ->
                {Case("P", sl.fmt, NameBlock, <<s1, s2>>, SubSeq(FixedSeqs, 1, 2), FALSE)
                     : s1 \in PairNames, s2 \in PairNames}
@@ -482,6 +504,7 @@ RoundTrip ==
              to   |-> [exp   |-> Exp(case),
                        allowed |-> Allowed(case),
                        allowed_bytes |-> AllowedBytes(case),
+                       routes |-> IF case.fam = "O" THEN Routes(case.fmt) ELSE {"write"},
                        cls   |-> CaseClass(case),
                        lines |-> CanonLines(case),
                        model |-> ModelOut(case),
@@ -545,6 +568,15 @@ LayoutsSound ==
 CanonIsALayout ==
     (Ready /\ case.fmt = "fasta") =>
         \A i \in 1..Len(case.seqs) : CanonLayout(case)[i] \in Layouts(case.seqs[i], case.block)
+
+(* the order family really is unsorted, so a writer that sorts is caught          *)
+RECURSIVE LexLess(_, _)
+LexLess(a, b) == IF a = <<>> THEN b # <<>>
+                 ELSE IF b = <<>> THEN FALSE
+                 ELSE IF Head(a) = Head(b) THEN LexLess(Tail(a), Tail(b))
+                 ELSE \E i, j \in 1..Len(CharOrder) : CharOrder[i] = Head(a) /\ CharOrder[j] = Head(b) /\ i < j
+OrderFamilyUnsorted ==
+    (Ready /\ case.fam = "O") => \E i \in 1..(Len(case.names) - 1) : LexLess(case.names[i + 1], case.names[i])
 
 TypeOK == /\ stage \in {"pick", "ready", "done"}
           /\ sel \in Selectors
